@@ -140,6 +140,19 @@ def check_sites(ctx, out, producers=None):
     return sites
 
 
+def _provenance(expr, f, depth=0):
+    """Parameters of f that expr derives from, following plain local assignments."""
+    from ..core.flow import single_assignments
+    names = {x.id for x in ast.walk(expr) if isinstance(x, ast.Name)}
+    out_ = names & set(f.params)
+    if depth < 5:
+        sa_ = single_assignments(f.node)
+        for nm in names - set(f.params):
+            for (_, v, _idx) in sa_.get(nm, []):
+                out_ |= _provenance(v, f, depth + 1)
+    return out_
+
+
 def rule_a(ctx, out):
     sites = check_sites(ctx, out)
     out.info["driver_sites"] = len(sites)
@@ -245,7 +258,14 @@ def _verify_block_rule(ctx, vf, out):
         if n.kind == "test" and isinstance(n.ast, ast.Compare) and len(n.ast.ops) == 1 \
                 and isinstance(n.ast.ops[0], (ast.NotEq, ast.Eq)):
             sides = [n.ast.left, n.ast.comparators[0]]
-            if all(isinstance(s, ast.Call) and call_name(s) in ("set", "sorted", "frozenset", "list") for s in sides):
+            # a comparison of the two key collections: one side derives (through local assignments) from the keys of the first
+            # dictionary, the other from the keys of the second; both are collections (set / sorted / comprehension)
+            prov = [_provenance(s_, vf) for s_ in sides]
+            coll = all(isinstance(s_, (ast.SetComp, ast.ListComp)) or (isinstance(s_, ast.Call) and call_name(s_) in ("set", "sorted", "frozenset", "list"))
+                       or isinstance(s_, ast.Name) for s_ in sides)
+            p0, p1 = vf.params[0], vf.params[1]
+            if coll and ((p0 in prov[0] and p1 in prov[1] and p1 not in prov[0] and p0 not in prov[1])
+                         or (p1 in prov[0] and p0 in prov[1] and p0 not in prov[0] and p1 not in prov[1])):
                 keytests.append(n)
     # (ii) loops calling are_equals
     loops = []
